@@ -274,3 +274,17 @@ Example C16_header_examples :
   /\ splitext_ext [120; 47; 46; 98; 97; 115; 104; 114; 99]%N = []                (* "x/.bashrc" -> "" *)
   /\ basename [120; 47; 46; 98]%N = [46; 98]%N.                                   (* "x/.b" -> ".b" *)
 Proof. vm_compute. repeat split; reflexivity. Qed.
+
+(* the length cap is on the RAW remainder of the request path, before normalisation: 255 x "./"
+   + "ab" (512 characters) is served as /srv/ab, one more "./" (514) or "./"x255 + "abc" (513) is
+   rejected although it normalises to a 2- or 3-character name *)
+Definition dot_slashes (k : nat) : str := concat (repeat [46; 47]%N k).
+Definition p_static : str := [47; 115; 116; 97; 116; 105; 99; 47]%N.            (* "/static/" *)
+
+Example C16_length_cap_on_raw_remainder :
+  length (dot_slashes 255 ++ [97; 98]%N) = 512%nat
+  /\ sanitize 8 false d_srv (p_static ++ dot_slashes 255 ++ [97; 98]%N) = Some [47; 115; 114; 118; 47; 97; 98]%N
+  /\ sanitize 8 false d_srv (p_static ++ dot_slashes 255 ++ [97; 98; 99]%N) = None
+  /\ sanitize 8 false d_srv (p_static ++ dot_slashes 256 ++ [97; 98]%N) = None
+  /\ normpath (dot_slashes 256 ++ [97; 98]%N) = [97; 98]%N.
+Proof. vm_compute. repeat split; reflexivity. Qed.
